@@ -525,7 +525,8 @@ GROUPS = (
 )
 
 PATTERNS = ("none", "random", "ring", "ringdep", "star_out", "star_in",
-            "star_both", "chain", "double", "pingpong", "forward", "exchange2")
+            "star_both", "chain", "double", "pingpong", "forward", "exchange2",
+            "fanin")
 
 
 class _RankGen(progen.Gen):
@@ -613,6 +614,15 @@ class _Builder:
             k = self.integers(2, 4)
             plan = [((a, b) if q % 2 == 0 else (b, a)) + ("recv" if q else "any",)
                     for q in range(k)]
+        elif pattern == "fanin":
+            # several messages one way, then a reply computed from ALL of
+            # them (a send that depends on two or more receives)
+            a, b = perm[0], perm[1]
+            k = self.integers(2, 3)
+            plan = [(a, b, "fresh") for _ in range(k)]
+            if n >= 3 and self.boolean():
+                plan[-1] = (perm[2], b, "fresh")
+            plan.append((b, a, "allrecv"))
         elif pattern == "forward":
             a, b = perm[0], perm[1]
             c = perm[2] if n >= 3 else a
@@ -683,6 +693,14 @@ class _Builder:
                         cands = [r]
             if not cands:
                 cands = [g.last_recv]
+        elif mode == "allrecv" and len(g.recvs) >= 2:
+            acc = g.recvs[0]
+            for r in g.recvs[1:]:
+                if g.vals[acc].kind != "b" and g.vals[r].kind != "b":
+                    t = g.try_op("add", [["n", acc], ["n", r]])
+                    if t is not None:
+                        acc = t
+            cands = [acc]
         elif mode == "fresh":
             cands = [i for i in arrays if not deps[i]]
         elif mode == "holderdep" and g.holders:
@@ -827,7 +845,8 @@ class _Builder:
         pats = list(cfg.patterns or PATTERNS)
         weights = {"none": 1, "random": 5, "ring": 3, "ringdep": 2,
                    "star_out": 2, "star_in": 2, "star_both": 2, "chain": 3,
-                   "double": 3, "pingpong": 3, "forward": 2, "exchange2": 2}
+                   "double": 3, "pingpong": 3, "forward": 2, "exchange2": 2,
+                   "fanin": 3}
         pats.sort(key=lambda p: (p == "none", p != "pingpong"))
         pattern = "none" if n == 1 else progen._w(
             d, [(weights[p], p) for p in pats])
